@@ -13,6 +13,9 @@ pub fn string_streams(tag: u64, tier: Tier, seed: u64, scale: f64) -> Vec<Stream
     v.push(Stream::new("seed-programs-every-prefix", strings::prefix_count(), true, |i| {
         format!("s:{}", strings::prefix_case(i))
     }));
+    v.push(Stream::new("seed-programs-bom-line-ending-whitespace-variants", strings::file_variant_count(), true, |i| {
+        format!("s:{}", strings::file_variant_case(i))
+    }));
     v.push(Stream::new("mutated-programs", n(120_000, 6_000_000), false, move |i| {
         let mut r = Rng::new(mix(&[seed, tag, 1, i]));
         format!("s:{}", strings::mutated_program(&mut r))
